@@ -77,7 +77,21 @@ class UFTarget:
 
 
 def nuts_chain_struct(eng, **kw):
+    """The chain struct as the real constructor builds it (fields added by a change keep their real initial values),
+    with the given fields overridden."""
     order = eng.src_index["structs"]["NUTSChain"]
+    base = None
+    pos = kw.get("position")
+    if pos is not None and eng.ctx is not None:
+        try:
+            base = eng.call_fn(eng.find_fn("NUTSChain::new"), [kw.get("target", Opaque("target")), RVec(list(vec(pos))),
+                                                             kw.get("target_accept_p", Num(Fraction(4, 5)))])
+        except Exception:
+            base = None
+    if isinstance(base, Struct) and base.names == list(order):
+        for k, v in kw.items():
+            base.set(k, v)
+        return base
     return Struct("NUTSChain", order, [kw.get(k, Opaque(k)) for k in order])
 
 
@@ -706,3 +720,52 @@ def c14_nuts(out, tier, seed):
     finally:
         mirsym.MUL_MODE["mode"] = "exact"
     u.done()
+
+
+def c07_nuts_set_seed(out, tier, seed):
+    eng = mir_load.load_engine()
+    u = MUnit(out, "C07", "c07_nuts_set_seed", eng, functions=["NUTS::set_seed", "NUTSChain::set_seed"],
+              bounds=["seed symbolic over all of u64; 3 chains (4 thorough)"],
+              assumptions=["SmallRng::seed_from_u64 is identified with its seed (injective); integers are mathematical integers "
+                           "with the machine ranges enforced by rustc's overflow assertions"],
+              out_of_scope=["statistical quality of the streams"])
+    fn = eng.find_fn("NUTS::set_seed")
+    n = 3 if tier == "quick" else 4
+
+    def run(ctx):
+        s = ctx.fresh_int("seed")
+        ctx.assume(z3.And(s >= 0, s <= 2 ** 64 - 1))
+        chains = [nuts_chain_struct(eng, m=c, position=tensor([Num(0)]), rng=Struct("SmallRng", ["seed"], [Opaque("os")])) for c in range(n)]
+        me = Struct("NUTS", eng.src_index["structs"]["NUTS"], [RVec(chains)])
+        r = eng.call_fn(fn, [me, s])
+        return s, r
+    done = 0
+    for ctx, res in eng.explore(run):
+        u.paths += 1
+
+        def replay(model):
+            return replay_nuts_seed()
+        if isinstance(res, PanicPath):
+            u.holds(ctx, "set_seed accepts every 64-bit seed (no overflow panic at the top of the range)", False, replay, str(res)[:80])
+            continue
+        if isinstance(res, Exception):
+            out.inconclusive.append("c07_nuts_set_seed: %r" % (res,))
+            continue
+        done += 1
+        s, r = res
+        seeds = [c.get("rng").fields[0] for c in r.get("chains").items]
+        ok = all(not isinstance(x, Opaque) for x in seeds)
+        u.holds(ctx, "set_seed reseeds every chain", ok, replay)
+        if ok:
+            conj = [zi(seeds[i]) != zi(seeds[j]) for i in range(n) for j in range(i + 1, n)]
+            u.holds(ctx, "seeded NUTS chains have pairwise distinct generators", z3.And(conj), replay)
+            rng = z3.And([z3.And(zi(x) >= 0, zi(x) <= 2 ** 64 - 1) for x in seeds])
+            u.holds(ctx, "chain seeds are 64-bit values", rng, replay)
+    u.reached("set_seed completes", done)
+    u.done()
+
+
+def replay_nuts_seed():
+    nat = native({"case": "nuts_set_seed_max"})
+    bad = [p for p, r in nat.items() if isinstance(r, dict) and (r.get("panic") or r.get("distinct") is False)]
+    return bool(bad), {"case": {"case": "nuts_set_seed_max"}, "native": nat, "reproduced_in": bad}
